@@ -71,6 +71,7 @@ type Contract struct {
 	Loops    map[int]*LoopSpec
 	InLoops  map[string]*LoopSpec // loops of inlined callees: "Reduce.0"
 	InlineCalls []string
+	IntWidth64 bool
 	Dispatch []Dispatch
 	Pure     bool
 	Inline   bool
@@ -128,7 +129,7 @@ type PkgSpec struct {
 	Axioms    []*Clause
 }
 
-var kwRe = regexp.MustCompile(`^(pure|pred|ghostinit|ghost|func|props|requires|ensures|panics|pensures|modifies|ghostparam|uses|inlinecall|dispatch|loop|ext|lemma|axiom|inline|trusted|decreases|ispure|params|results|end|sort|ufun|callback|before|after|invokes)\b`)
+var kwRe = regexp.MustCompile(`^(pure|pred|ghostinit|ghost|func|props|requires|ensures|panics|pensures|modifies|ghostparam|uses|inlinecall|dispatch|intwidth|loop|ext|lemma|axiom|inline|trusted|decreases|ispure|params|results|end|sort|ufun|callback|before|after|invokes)\b`)
 
 func loadPkgSpec(dir, pkgPath string) (*PkgSpec, error) {
 	ps := &PkgSpec{Path: pkgPath, Macros: map[string]*Macro{}, Ghosts: map[string]*GhostField{}, Contracts: map[string]*Contract{}, Sorts: map[string]bool{}, UFuns: map[string]*UFun{}, Callbacks: map[string]*Contract{}}
@@ -400,6 +401,8 @@ func (ps *PkgSpec) parseFile(file, data string) error {
 				d.Ord, _ = strconv.Atoi(strings.Trim(fs[0][bi:], "[]"))
 			}
 			cur.Dispatch = append(cur.Dispatch, d)
+		case "intwidth":
+			cur.IntWidth64 = strings.TrimSpace(rest) == "64"
 		case "inlinecall":
 			cur.InlineCalls = append(cur.InlineCalls, strings.Fields(strings.ReplaceAll(rest, ",", " "))...)
 		case "uses":
